@@ -66,6 +66,14 @@ class LinEval:
         raise Unfoldable(f"opaque term {t.text()[:60]}")
 
     def sum(self, s, i) -> float:
+        if i == 0:
+            # filters that do not depend on the binders decide the whole sum early
+            for f, pol in s.filters:
+                try:
+                    if bool(self.ev.ev(f)) != pol:
+                        return 0.0
+                except (Unfoldable, Raised):
+                    pass
         if i == len(s.binders):
             for f, pol in s.filters:
                 if bool(self.ev.ev(f)) != pol:
@@ -82,6 +90,41 @@ class LinEval:
         finally:
             self.ev.locals = saved
         return total
+
+
+def reach_hook(func):
+    """Evaluator hook: an unbound local name evaluates to the value of its unique reaching plain assignment
+    (reaching definitions on the function's CFG at the node where the name is read)."""
+    from .cfg import cfg_of
+    from .dataflow import reaching
+    from .loader import AnalysisError
+
+    cfg = cfg_of(func)
+
+    def hook(node, ev):
+        if not isinstance(node, ast.Name) or not isinstance(getattr(node, "ctx", None), ast.Load):
+            return NotImplemented
+        if node.id in ev.locals or node.id in ev.bound or getattr(node, "_parent", None) is None:
+            return NotImplemented
+        if node.id in getattr(ev, "_reach_busy", set()):
+            return NotImplemented
+        try:
+            nid = cfg.node_of(node)
+        except AnalysisError:
+            return NotImplemented
+        IN, defs = reaching(cfg, node.id)
+        ds = [defs[d] for d in IN[nid]]
+        if len(ds) != 1 or not isinstance(ds[0], ast.Assign) or len(ds[0].targets) != 1 \
+                or not isinstance(ds[0].targets[0], ast.Name):
+            return NotImplemented
+        busy = getattr(ev, "_reach_busy", set())
+        ev._reach_busy = busy | {node.id}
+        try:
+            return ev.ev(ds[0].value)
+        finally:
+            ev._reach_busy = busy
+
+    return hook
 
 
 def fold_defs(func, names, env, funcs=None, consts=None, hook=None, upto=None) -> Dict[str, Any]:
